@@ -292,6 +292,27 @@ func C01(ctx *core.Ctx) {
 				ctx.Violate("C01.R3", en+" › call to "+dn, fnPos(r, f), "Execute no longer hands the frame to the delivery function")
 			}
 		}
+		// every other delivery in the package hands over a sentinel, never a frame:
+		// a frame is delivered only under the op id parsed from its own header (Execute)
+		for _, f := range r.Fns {
+			if regImpl[f] == "Execute" {
+				continue
+			}
+			for _, c := range ssax.Calls(f) {
+				hit := false
+				for _, t := range r.Resolve(c) {
+					if t == delivery {
+						hit = true
+					}
+				}
+				if !hit || len(c.Args()) < 3 {
+					continue
+				}
+				_, isGlobalLoad := LoadedGlobal(ssax.Strip(c.Args()[2]))
+				ctx.Check(isGlobalLoad, "C01.R3", ssax.Name(f)+" › direct delivery hands over a sentinel only", r.IPos(c.Instr), "package-level marker (no frame)",
+					"a frame is delivered under an op id that was not parsed from the frame's own header (e.g. taken from the reply subject): a reply arriving on another request's subject, or carrying an op id that was never issued, completes that request")
+			}
+		}
 		// NATS 503 path
 		if h := r.Fn("C01.R3", "(*fNatsTransport).handler"); h != nil {
 			c01Nats503(ctx, r, h, delivery)
@@ -301,6 +322,9 @@ func C01(ctx *core.Ctx) {
 	// ---- R8 undeliverable frames are not errors ---------------------------------
 	ctx.Rule("C01.R8", "a frame the registry cannot deliver (unknown, completed or duplicate op id) is discarded without an error wherever a reader loop treats an error of Execute as fatal", 2)
 	undeliverableNotError(ctx, r, "C01.R8", delivery, regImpl)
+
+	ctx.Rule("C01.R9", "op-id radix: every integer text conversion of the runtime (op ids, timeouts, limits) uses the same base", 8)
+	radixAgreement(ctx, r.Fns, r.IPos, ssax.Name, "C01.R9", "an op id written in decimal is read with another radix on the other side of the correlation (\"013\" as octal 11): a response completes a different in-flight request and its own request times out")
 
 	// ---- R7 frame ownership -------------------------------------------------------
 	ctx.Rule("C01.R7", "frame ownership: every frame a reader loop hands to the registry is a buffer allocated for that frame alone (the registry passes it to the caller uncopied)", 1)
@@ -505,6 +529,30 @@ func c01Request(ctx *core.Ctx, r *RT, req *ssa.Function, R4, R5 string) {
 				}
 			}
 			return false
+		}
+		// a registration that failed (the context is in flight for another request) is neither
+		// used nor undone: the error is tested, and Unregister is deferred on the success edge only
+		{
+			okB := errNilSuccessor(rc.Instr.Value())
+			okDefer := okB != nil
+			where := ""
+			if okB != nil {
+				for _, uc := range unregCalls {
+					d, isD := uc.Instr.(*ssa.Defer)
+					if !isD {
+						continue
+					}
+					if !(len(okB.Preds) == 1 && okB.Dominates(d.Block())) {
+						okDefer, where = false, r.IPos(d)
+					}
+				}
+			}
+			detail := "the error of Register is not tested"
+			if okB != nil {
+				detail = "Unregister is deferred at " + where + " although Register may have failed"
+			}
+			ctx.Check(okDefer, R4, rn+" › a failed Register is neither used nor undone", r.IPos(rc.Instr), "Register's error is tested; defer Unregister only on its nil edge",
+				detail+": a request made with a context that is already in flight removes the registration of the request that owns it when it returns or times out, so that request's response is dropped and its caller times out although the peer answered")
 		}
 		// success continuation: if Register's error is tested, follow the nil edge
 		var from ssa.Instruction = rc.Instr.(ssa.Instruction)
